@@ -10,6 +10,7 @@
 
 #include <core/core.h>
 #include <lp/msg.h>
+#include <verif_hooks.h>
 
 extern void gvt_global_init(void);
 extern simtime_t gvt_phase_run(void);
@@ -27,23 +28,27 @@ static inline void gvt_remote_msg_send(struct lp_msg *msg, nid_t dest_nid)
 {
 	msg->m_seq = (remote_msg_seq[gvt_phase][dest_nid]++ << 1) | gvt_phase;
 	msg->raw_flags = (nid << (MAX_THREADS_EXP + 2)) | ((rid + 1) << 2) | gvt_phase;
+	VERIF_TRACE(VT_NET_SEND, dest_nid, gvt_phase, verif_bits(msg->dest_t), 0);
 }
 
 static inline void gvt_remote_anti_msg_send(struct lp_msg *msg, nid_t dest_nid)
 {
 	++remote_msg_seq[gvt_phase][dest_nid];
 	msg->raw_flags |= gvt_phase << 1U;
+	VERIF_TRACE(VT_NET_SEND, dest_nid, gvt_phase, verif_bits(msg->dest_t), 1);
 }
 
 static inline void gvt_remote_msg_receive(struct lp_msg *msg)
 {
 	++remote_msg_received[msg->raw_flags & 1U];
+	VERIF_TRACE(VT_NET_RECV, msg->raw_flags & 1U, verif_bits(msg->dest_t), 0, 0);
 	msg->raw_flags &= ~((uint32_t)3U);
 }
 
 static inline void gvt_remote_anti_msg_receive(struct lp_msg *msg)
 {
 	++remote_msg_received[(msg->raw_flags >> 1U) & 1U];
+	VERIF_TRACE(VT_NET_RECV, (msg->raw_flags >> 1U) & 1U, verif_bits(msg->dest_t), 1, 0);
 	msg->raw_flags &= ~((uint32_t)3U);
 	msg->raw_flags |= MSG_FLAG_ANTI;
 }
